@@ -62,6 +62,7 @@ BfsResult bfs(Ctx &c, const std::string &tag, Make make, int max_depth, int full
       std::vector<int> h2 = h; h2.push_back(op);
       std::string unit = tag + ":" + hist_str(h2);
       if (!c.begin(unit)) { if (c.out_of_time()) { R.fixpoint = false; return R; } continue; }
+      crumb_note(tag + ": [" + describe(h) + " ; " + make()->opname(op) + "]");
       W w1 = build(h2); std::string key = w1->canon();
       std::string d2, d3;
       W w2 = build(h2); std::string m2 = w2->check(d2);
